@@ -156,20 +156,28 @@ fn cases_for(fx: &Fixture, dbi: usize, db: &Db, thorough: bool) -> Vec<Case> {
     // ---- absent exact points
     for (k, r) in db.imm.iter().enumerate() {
         let (s, h) = (fx.slot(*r), fx.hash(*r));
+        // quick: the three hash-shape variants only on every 16th block and both ends
+        let all_variants = thorough || k % 16 == 0 || k + 1 == n;
         let mut flipped = h;
         flipped[0] ^= 1;
         v.push(Case { db: dbi, kind: Kind::Absent, slot: s, hash: flipped.to_vec(), how: "right slot, hash with one bit flipped" });
+        v.push(Case { db: dbi, kind: Kind::Absent, slot: s + 1, hash: h.to_vec(), how: "slot+1, right hash" });
+        v.push(Case { db: dbi, kind: Kind::Absent, slot: s - 1, hash: h.to_vec(), how: "slot-1, right hash" });
+        if !all_variants {
+            continue;
+        }
         let other = if k + 1 < n { db.imm[k + 1] } else if k > 0 { db.imm[k - 1] } else { db.last[0] };
         v.push(Case { db: dbi, kind: Kind::Absent, slot: s, hash: fx.hash(other).to_vec(), how: "right slot, hash of another block" });
         v.push(Case { db: dbi, kind: Kind::Absent, slot: s, hash: h[..31].to_vec(), how: "right slot, hash truncated to 31 bytes" });
         let mut long = h.to_vec();
         long.push(0);
         v.push(Case { db: dbi, kind: Kind::Absent, slot: s, hash: long, how: "right slot, hash extended to 33 bytes" });
-        v.push(Case { db: dbi, kind: Kind::Absent, slot: s + 1, hash: h.to_vec(), how: "slot+1, right hash" });
-        v.push(Case { db: dbi, kind: Kind::Absent, slot: s - 1, hash: h.to_vec(), how: "slot-1, right hash" });
     }
     // blocks of the last (not immutable, never served) chunk are absent from the database
-    for r in &db.last {
+    for (k, r) in db.last.iter().enumerate() {
+        if !(thorough || k % 16 == 0 || k + 1 == db.last.len()) {
+            continue;
+        }
         v.push(Case { db: dbi, kind: Kind::Absent, slot: fx.slot(*r), hash: fx.hash(*r).to_vec(), how: "block of the last (non-immutable) chunk" });
     }
     // ---- fuzzy points
@@ -186,13 +194,13 @@ fn cases_for(fx: &Fixture, dbi: usize, db: &Db, thorough: bool) -> Vec<Case> {
     }
     // before / between / after
     fuzzy.extend([0, 1, u64::MAX]);
-    for r in &db.last {
-        fuzzy.insert(fx.slot(*r));
-    }
-    for w in slots.windows(2) {
-        fuzzy.insert(w[0] + (w[1] - w[0]) / 2);
+    if let (Some(a), Some(b)) = (db.last.first(), db.last.last()) {
+        fuzzy.extend([fx.slot(*a), fx.slot(*b)]);
     }
     if thorough {
+        for w in slots.windows(2) {
+            fuzzy.insert(w[0] + (w[1] - w[0]) / 2);
+        }
         // every slot of the epochs of the immutable chunks, stride 1
         for name in &db.names[..db.names.len() - 1] {
             let c: u64 = name.parse().unwrap_or(0);
@@ -417,7 +425,8 @@ pub fn run(ctx: Ctx) -> ! {
         "distinct_expected_outcomes" => distinct_expected.len(),
         "fuzzy_points_answered_from_a_later_chunk" => cross_chunk_fuzzy,
         "diagnostic_fuzzy_points_outside_block_range" => diag_outside,
-        "fuzzy_stride" => if ctx.thorough { "every slot of the epochs of the immutable chunks + every block slot +-1, midpoints, chunk boundaries" } else { "every block slot +-1, midpoints between consecutive blocks, chunk boundaries +-1" },
+        "absent_points" => if ctx.thorough { "per block: flipped hash bit, slot+1, slot-1, another block's hash, 31-byte hash, 33-byte hash; every block of the last chunk" } else { "per block: flipped hash bit, slot+1, slot-1; on every 16th block and both ends also another block's hash, 31-byte hash, 33-byte hash; every 16th block of the last chunk" },
+        "fuzzy_stride" => if ctx.thorough { "every slot of the epochs of the immutable chunks + every block slot +-1, midpoints, chunk boundaries" } else { "every block slot +-1, chunk boundaries +-1" },
     };
     ctx.finish(
         Level::Exploration,
